@@ -194,6 +194,14 @@ fn check_batches(client_kind: &str, recs: &[BatchRec], id_of: &BTreeMap<u64, Str
 				for (i, (n, a)) in r.nonces.iter().zip(list).enumerate() {
 					let Some(id) = id_of.get(n) else { continue };
 					let own: Vec<&Sent> = sent.iter().filter(|s| &s.id == id && (s.for_nonce.is_none() || s.for_nonce == Some(*n)) && delivered_before(s.seq, r.done_stamp)).collect();
+					// A reply that repeats an id gives two answers to one entry: the call fails or that entry is reported as
+					// an error - it is not for the client to pick one of them. (Judged when one reply message alone ever
+					// addressed this id, so that it is the reply that completed the call.)
+					let every: Vec<&Sent> = sent.iter().filter(|s| &s.id == id && (s.for_nonce.is_none() || s.for_nonce == Some(*n))).collect();
+					if every.len() >= 2 && every.iter().all(|s| s.seq == every[0].seq) && own.len() == every.len() && own.iter().any(|s| &s.ans == a) {
+						rt::violate(P, "repeated-id-accepted", client_kind.to_string(), format!("batch {:?}: the reply answered id {id} {} times ({:?}); the call succeeded and entry {i} holds {a:?}", r.nonces, every.len(), every.iter().map(|s| &s.ans).collect::<Vec<_>>()));
+						continue;
+					}
 					if own.iter().any(|s| &s.ans == a) {
 						if own.len() == 1 && i > 0 {
 							nontrivial = true;
